@@ -558,7 +558,8 @@ H("C05", "exd", "c05_cell_packed5_seeded_offset", timeout=300, unwind=18, bounds
 H("C05", "exd", "c05_language_ids_and_codes", unwind=10, timeout=300, bounds="all 8 language ids: parsed value and file-name code", encodes=["common::Language (binrw repr)", "common::get_language_code"])
 
 H("C02", "sqpack_data", "c02_texture_file_two_mips", unwind=24, timeout=900, bounds="texture entry: 16 header bytes, mip 0 = 2 raw blocks (padded 128 / 256), mip 1 = 2 raw blocks; all header and content bytes symbolic",
-  encodes=["sqpack::data::SqPackData::read_texture_file", "sqpack::read_data_block"], stubs=_MF, cbmc_args=FS1K)
+  encodes=["sqpack::data::SqPackData::read_texture_file", "sqpack::read_data_block"],
+  stubs=_MF + ["compression::no_header_decompress -> always fails (all blocks of the entry are raw; reaching it means a block header was read from the wrong place)"], cbmc_args=FS1K)
 
 # C06: whole-file parse of a generated minimal model (possible since the binrw counted-vector model)
 H("C06", "model", "c06_from_existing_minimal_model", tier="thorough", unwind=80, timeout=2400,
@@ -636,6 +637,6 @@ for n, t in (("one_byte_longer_than_file", "quick"), ("as_long_as_whole_file", "
       encodes=["gearsets::GearSets::from_existing", "dat::DatHeader (BinRead)"])
 H("C15", "equipment", "c15_deconstruct_concrete_all_slots", unwind=24, timeout=600, bounds="the ten file names c0201e0038_<slot>.mdl (concrete): id 38 and the slot read back",
   encodes=["equipment::deconstruct_equipment_path", "equipment::get_slot_from_abbreviation"], stubs=["core::slice::memchr::memrchr / memchr_aligned -> naive scans"])
-H("C14", "mtrl", "c14_material_with_dawntrail_dye_table_5f", tier="quick", unwind=40, timeout=1200, cbmc_args=FS1K, kani_args=["--no-assertion-reach-checks"],
+H("C14", "mtrl", "c14_material_with_dawntrail_dye_table_5f", tier="thorough", unwind=40, timeout=3000, cbmc_args=FS1K, kani_args=["--no-assertion-reach-checks"],
   bounds="216-byte material: table flags 0x5F8 (dye table, dimension logs 0x5F, no colour table), 128 dye table bytes symbolic, the rest as the minimal material",
   encodes=["mtrl::Material::from_existing", "mtrl::parse_color_dye_table", "mtrl::MaterialData (BinRead)"], stubs=["core::str::validations::run_utf8_validation -> ASCII-only model"])
